@@ -93,6 +93,32 @@ func checkC11(r *Run) {
 	r.Ob("C11.R1.memory", "the handler shares one juror across requests", p.Position(arbitrate.Pos()), okJuror, detail+": a juror allocated per request forgets what it approved")
 
 	c := p.CFG(verdict)
+	// a package-local helper that only reads the field (no store to it, no lock
+	// operation of its own) reads it on behalf of its caller: "j.alreadyApproved(key)"
+	readsOnly := func(g *FuncNode) bool {
+		if g == nil || g.Body == nil || g.Pkg != verdict.Pkg || g == verdict {
+			return false
+		}
+		reads, clean := false, true
+		inspectNoLit(g.Body, func(x ast.Node) bool {
+			switch v := x.(type) {
+			case *ast.SelectorExpr:
+				if fieldVar(g, v) == approvals {
+					reads = true
+				}
+			case *ast.CallExpr:
+				if _, _, isLock := la.lockOp(g, v); isLock {
+					clean = false
+				}
+			case ast.Stmt:
+				if isStoreTo(g, v, approvals) {
+					clean = false
+				}
+			}
+			return true
+		})
+		return reads && clean
+	}
 	reads := c.NodesWhere(func(n ast.Node) bool {
 		if isStoreTo(verdict, n, approvals) {
 			return false
@@ -101,6 +127,11 @@ func checkC11(r *Run) {
 		inspectNoLit(n, func(x ast.Node) bool {
 			if s, ok := x.(*ast.SelectorExpr); ok && fieldVar(verdict, s) == approvals {
 				found = true
+			}
+			if call, ok := x.(*ast.CallExpr); ok {
+				if f := CalleeFunc(verdict, call); f != nil && readsOnly(p.ByObj[f.Origin()]) {
+					found = true
+				}
 			}
 			return true
 		})
